@@ -46,6 +46,34 @@ def root_records(kind, seed, limit):
     return roots
 
 
+def run_gen_job(pid, job, tier, seed):
+    """Mode C: TLC generates cases from the specification, the recorder runs them against the library, TLC judges the log."""
+    wd = workdir(pid, job["name"])
+    p = job["params"][tier]
+    gcfg = dict(p["gencfg"])
+    if "mod" in gcfg and gcfg["mod"] > 1:
+        gcfg["rem"] = (seed + job.get("seed_offset", 0)) % gcfg["mod"]
+    path = os.path.join(wd, "gencfg.json")
+    json.dump(gcfg, open(path, "w"))
+    out = run_tlc_model(job["gen_spec"], job["gen_spec"], wd, workers=p.get("workers", 8), timeout=p.get("timeout", 1800), xmx=p.get("xmx", "6g"), env_extra={"GENCFG": path})
+    recs = [m.group(1) for m in re.finditer(r'<<"GEN", "([^"]*)">>', out["text"])]
+    if not recs:
+        raise ToolError("generator %s produced no cases:\n%s" % (job["gen_spec"], out["text"][-2000:]))
+    sfen = os.path.join(wd, "generated.sfen")
+    open(sfen, "w").write("\n".join(recs) + "\n")
+    prefix = os.path.join(wd, "tr")
+    args = dict(job["args"].get("common", {}))
+    args.update(job["args"].get(tier, {}))
+    args["sfen-file"] = sfen
+    rec = ["--seed", seed, "--shards", NCPU, "--out", prefix, "--histories", 0] + flatten(args)
+    stats = run_recorder(job.get("variant", "release"), job["driver"], rec)
+    shards = sorted(glob.glob(prefix + ".*.ndjson"))
+    res = run_tlc_shards(job["spec"], shards, job["checks"], wd, timeout=job.get("timeout", 3000))
+    log("[gen] %s: TLC generated %d cases (%s, %.1fs); %d events recorded; TLC validated %d lines in %.1fs; %d mismatching observations" %
+        (job["name"], len(recs), json.dumps(gcfg), out["wall_s"], stats.get("events", 0), res.lines, res.wall, len(res.mismatches)))
+    return out, recs, stats, res, shards, gcfg
+
+
 def run_model_job(pid, job, tier, seed):
     wd = workdir(pid, job["name"])
     p = job["params"][tier]
@@ -104,6 +132,24 @@ def run_check(pid, tier, seed):
                                 "mismatching_observations": len(res.mismatches)})
             if len(cov["samples"]) < 8:
                 cov["samples"] += sample_events(shards, job.get("sample_kinds", list(stats.get("kinds", {}).keys())[:4]))
+            for (f, line, prop, chk, txt) in res.mismatches:
+                if prop in report:
+                    violations.append((prop, chk, txt, f, line, job))
+                else:
+                    notes[(prop, chk)] = notes.get((prop, chk), 0) + 1
+        elif job["type"] == "gen":
+            out, recs, stats, res, shards, gcfg = run_gen_job(pid, job, tier, seed)
+            cov["states"] += res.distinct + out["distinct"]
+            cov["transitions"] += max(res.states - len(shards), 0)
+            cov["traces_validated_against_impl"] += stats.get("histories", 0)
+            cov["jobs"].append({"job": job["name"], "mode": "C: cases enumerated by TLC from " + job["gen_spec"] + ".tla, executed on the library, judged by TLC (" + job["spec"] + ".tla)",
+                                "generated_cases": len(recs), "generator_config": gcfg, "generator_states": out["distinct"], "events": stats.get("events"),
+                                "event_kinds": stats.get("kinds"), "checks_enabled": job["checks"], "tlc_lines_consumed": res.lines,
+                                "exhaustive_within_family": gcfg.get("mod", 1) == 1, "mismatching_observations": len(res.mismatches)})
+            for k, v in stats.get("kinds", {}).items():
+                kinds_total[k] = kinds_total.get(k, 0) + v
+            if len(cov["samples"]) < 10:
+                cov["samples"] += recs[:2]
             for (f, line, prop, chk, txt) in res.mismatches:
                 if prop in report:
                     violations.append((prop, chk, txt, f, line, job))
